@@ -23,12 +23,13 @@ fn registry() -> Vec<Box<dyn FamilyDyn>> {
         Box::new(XRunner::new(fam_watch::program_set)),
         Box::new(XRunner::new(fam_notify::program_set)),
         Box::new(XRunner::new(fam_lock::program_set)),
-        Box::new(XRunner::new(fam_task::program_set)),
+        Box::new(XRunner::new(fam_task::program_set::<false>)),
+        Box::new(XRunner::new(fam_task::program_set::<true>)),
     ]
 }
 
 /// (family, share of the wall-clock budget)
-const FAMILIES: [(&str, f64); 7] = [("toneshot", 0.3), ("tmpsc_thr", 0.7), ("tnotify", 1.0), ("ttask", 1.5), ("twatch", 3.0), ("tmpsc", 3.5), ("tlock", 4.0)];
+const FAMILIES: [(&str, f64); 8] = [("toneshot", 0.3), ("ttime", 0.3), ("tmpsc_thr", 0.7), ("tnotify", 1.0), ("ttask", 1.5), ("twatch", 3.0), ("tmpsc", 3.5), ("tlock", 4.0)];
 
 fn family(name: &str) -> Box<dyn FamilyDyn> {
     registry().into_iter().find(|f| f.name() == name).unwrap_or_else(|| {
@@ -248,6 +249,67 @@ fn main() {
             println!("{} programs, {} executions", to - from, tot);
             for (k, (c, first)) in keys {
                 println!("  {} x{} first #{}", k, c, first);
+            }
+        }
+        Some("probe-timeleak") => {
+            // Stand-alone reproduction (no explorer, no model): does a `time::timeout` that is still
+            // pending when its execution ends leave its entry in the wrapper's thread-local table, so
+            // that `trigger_timeouts` in a LATER execution on the same thread trips over it?
+            //   probe-timeleak detached|deadlock
+            use shuttle_tokio_impl_inner as stk;
+            vx::common::silence_panics();
+            let how = args.get(2).cloned().unwrap_or_else(|| "detached".into());
+            let cfg = || {
+                let mut c = shuttle_engine::Config::new();
+                c.failure_persistence = shuttle_engine::FailurePersistence::None;
+                c
+            };
+            let join = how == "deadlock";
+            let a = std::panic::catch_unwind(move || {
+                shuttle_engine::Runner::new(shuttle_schedulers::DfsScheduler::new(None, false), cfg()).run(move || {
+                    shuttle::future::block_on(async move {
+                        let sem = std::sync::Arc::new(stk::sync::Semaphore::new(0));
+                        let s2 = sem.clone();
+                        let h = stk::task::spawn(async move {
+                            let _ = stk::time::timeout(std::time::Duration::from_secs(1), s2.acquire()).await;
+                        });
+                        if join {
+                            let _ = h.await;
+                        } else {
+                            stk::task::yield_now().await;
+                            drop(h);
+                        }
+                    });
+                })
+            });
+            println!("first run ({}): {}", how, match &a {
+                Ok(n) => format!("ok, {} executions", n),
+                Err(p) => format!("failed: {}", vx::prog::payload_to_string(p).chars().take(90).collect::<String>()),
+            });
+            let b = std::panic::catch_unwind(move || {
+                shuttle_engine::Runner::new(shuttle_schedulers::DfsScheduler::new(None, false), cfg()).run(|| {
+                    shuttle::future::block_on(async {
+                        stk::time::trigger_timeouts(|_| true);
+                        stk::time::clear_triggers();
+                    });
+                })
+            });
+            println!("second run (trigger_timeouts in a fresh execution, same thread): {}", match &b {
+                Ok(n) => format!("ok, {} executions", n),
+                Err(p) => format!("PANIC: {}", vx::prog::payload_to_string(p).chars().take(120).collect::<String>()),
+            });
+        }
+        Some("history") => {
+            // history <family> <set> (<idx> <alts,comma,separated>)+ : run the given executions one after
+            // the other in this process (state that survives executions shows up here)
+            vx::common::silence_panics();
+            let fam = family(&args[2]);
+            let mut i = 4;
+            while i + 1 < args.len() {
+                let idx: usize = args[i].parse().unwrap();
+                let alts: Vec<String> = args[i + 1].split(',').filter(|s| !s.is_empty()).map(|s| s.to_string()).collect();
+                println!("{}", fam.replay(&args[3], idx, &drive::strings_to_alts(&alts)));
+                i += 2;
             }
         }
         Some("worker") => {
